@@ -28,7 +28,8 @@ def run(ctx):
     shutil.rmtree(wd, ignore_errors=True)
     mkdir(wd)
     ins = fc.inputs(ctx, cases, wd)
-    ins += fc.token_inputs(ctx, cases, wd, 2 if ctx.quick else 10, 1 if ctx.quick else 3)
+    from checks import c07
+    ins += fc.token_inputs(ctx, cases, wd, 2 if ctx.quick else 10, 1 if ctx.quick else 3, extra=[("statements", c07.statement_host())])
     tbl = diag.table()
     jobs = [(tag, path, expect, m, tool) for tag, path, expect, m, c in ins for tool in fc.TOOLS]
 
